@@ -1025,6 +1025,12 @@ PROFILES = {
     "c01": dict(functional=["bin", "bin", "un", "power", "red", "red", "matmul", "where", "join", "gathercopy",
                             "act", "cum", "seq", "einsum", "conv", "pool", "loss"],
                 w_func=0.75, w_view=0.25, w_inplace=0.0, max_leaves=3, max_steps=8, p_const_leaf=0.2),
+    # C02: short programs (one to three operations) ended by backward with a non-trivial seed: every operation's VJP on
+    # random shapes / broadcasts / options, beyond the fixed cells of OpTable.tla
+    "c02": dict(functional=["bin", "bin", "un", "power", "red", "red", "matmul", "where", "join", "gathercopy",
+                            "act", "cum", "seq", "einsum", "einsum", "conv", "pool", "loss"],
+                w_func=0.8, w_view=0.2, w_inplace=0.0, max_leaves=3, max_steps=3, p_const_leaf=0.15, p_seed=0.8,
+                p_nonscalar_L=0.9, p_forder_leaf=0.15),
     "c04": dict(p_forder_leaf=0.25, functional=["bin", "un", "red"], w_func=0.25, w_view=0.4, w_inplace=0.35, max_leaves=2,
                 max_steps=8, backward=False, p_const_leaf=0.2, p_kw_const_view=0.08, p_kw_const_out=0.15,
                 inplace=["setitem", "setitem", "aug", "uout", "setshape"], w_misc=0.08, misc=["fail"]),
